@@ -108,7 +108,13 @@ func (s *coSched) choose(mustLeave bool) *coTask {
 			}
 		}
 	default:
-		stay := !mustLeave && s.next()%1000 >= s.switchPc
+		pc := s.switchPc
+		if len(s.site) > 3 && s.site[:3] == "sp " && pc < 300 {
+			// right before a synchronisation operation of the library (sync.Map, atomics, Once, channels): for data-race-free
+			// code these are the only points where interleavings differ, so they are left more readily than function entries
+			pc = 300
+		}
+		stay := !mustLeave && s.next()%1000 >= pc
 		if !mustLeave && s.sticky > 0 {
 			// the task that took over at a global-write point runs on undisturbed for a while: it is the one that may read the
 			// half-written state before the writer does anything else
